@@ -7,6 +7,9 @@ from objgen import ObjGen, rbytes
 KINDS = ['other', 'brokenpipe', 'denied', 'wouldblock', 'timedout', 'writezero', 'eof', 'oom', 'invaliddata', 'storagefull']
 # (the model and the harness also know 'isadir' and 'filetoolarge': what the real devices of the save(path) cases answer)
 BUF = 8192   # std::io::DEFAULT_BUF_SIZE, the capacity of the BufWriter in Document::save(path)
+BIG_MIN, BIG_MAX = 65537, 300000   # 'huge' documents: stream payloads of more than 64 KiB
+BIG_TOTAL = 320000                 # ... all of them together (the extracted model recurses once per output byte: 8 MiB stack / 16)
+BIG_EDGES = [65537, 65538, 65536 + 4096, 65536 + 4097, 65536 + 8192, 2 * 65536, 2 * 65536 + 1, 3 * 65536 + 1, 4 * 65536, 4 * 65536 + 1, BIG_MAX]
 
 
 # ---------------------------------------------------------------------------------------------
@@ -33,9 +36,12 @@ def catalog_objs():
 
 def gen_doc(rng, g, size):
     """size: 'tiny' (0-2 objects), 'small' (page tree + a few), 'medium' (20-60 objects with streams),
-    'large' (as medium plus streams of 2-4 KiB and one larger than the 8 KiB write buffer of save(path): output of 20-40 KiB)"""
+    'large' (as medium plus streams of 2-4 KiB and one larger than the 8 KiB write buffer of save(path): output of 20-40 KiB),
+    'huge' (page tree, a few objects, one to three streams of 65 537 .. 300 000 bytes, sometimes one of exactly 65 536)"""
     objs = []
     pads = []
+    if isinstance(size, tuple):
+        size, big = size
     if size == 'tiny':
         n = rng.choice([0, 1, 1, 2])
         ids = rng.sample(range(1, 9), n)
@@ -43,8 +49,13 @@ def gen_doc(rng, g, size):
             objs.append(((i, rng.choice([0, 0, 0, 3])), g.obj(rng.choice([0, 1]))))
     else:
         objs = catalog_objs()
-        n = rng.randint(0, 4) if size == 'small' else rng.randint(20, 60)
+        n = rng.randint(0, 4) if size in ('small', 'huge') else rng.randint(20, 60)
         used = {1, 2, 3}
+        if size == 'huge':
+            for ln in big:
+                i = max(used) + rng.choice([1, 1, 2])
+                used.add(i)
+                pads.append((i, ln, rng.randrange(1 << 30)))
         if size == 'large':
             # big streams are described, not spelled out (the harness generates their content): lengths around the buffer
             # capacity on purpose; their object numbers are reserved here
@@ -91,6 +102,51 @@ def gen_doc(rng, g, size):
     return g.finish(DOC(version, mark, trailer, objs, max_id)), L('pad', *[L(str(i), str(ln), str(sd)) for i, ln, sd in pads])
 
 
+def big_lengths(rng, first=None):
+    """payload lengths of a huge document: above 64 KiB each, BIG_TOTAL together at most"""
+    lens = [first or (rng.choice(BIG_EDGES) if rng.random() < 0.5 else rng.randint(BIG_MIN, BIG_MAX))]
+    while rng.random() < 0.5 and BIG_TOTAL - sum(lens) >= BIG_MIN and len(lens) < 3:
+        lens.append(rng.randint(BIG_MIN, min(BIG_MAX, BIG_TOTAL - sum(lens))))
+    if rng.random() < 0.3 and BIG_TOTAL - sum(lens) >= 65536:
+        lens.append(65536)       # the longest payload that is not "more than 64 KiB"
+    rng.shuffle(lens)
+    return lens
+
+
+PAD_ALPHABET = b"abcdefghijklmnopqrstuvwxyz0123456789 ()<>[]/%\\\n\r\x00\xff"
+_pad_cache = {}
+
+
+def pad_content(ln, seed):
+    """the payload the harness generates for (pad (id ln seed)) -- same generator as pad_content in harness/src/bin/c19.rs;
+    used only to find where the payload lies in the reference output"""
+    if (ln, seed) not in _pad_cache:
+        M = (1 << 64) - 1
+        st = (seed * 6364136223846793005 + 1442695040888963407) & M
+        out = bytearray(ln)
+        n = len(PAD_ALPHABET)
+        for i in range(ln):
+            st = (st * 6364136223846793005 + 1442695040888963407) & M
+            out[i] = PAD_ALPHABET[(st >> 33) % n]
+        _pad_cache[(ln, seed)] = bytes(out)
+    return _pad_cache[(ln, seed)]
+
+
+def payload_spans(fullhex, pad):
+    """[(start, length)] of the big payloads in the complete output"""
+    full = bytes.fromhex(fullhex[1:])
+    spans = []
+    for e in re.findall(r'\((\d+) (\d+) (\d+)\)', pad):
+        ln, seed = int(e[1]), int(e[2])
+        if ln < 65536:
+            continue
+        at = full.find(b'stream\n' + pad_content(ln, seed) + b'\nendstream')
+        if at < 0:
+            raise RuntimeError('C19 generator: the payload of (pad %s) is not in the reference output' % (e,))
+        spans.append((at + 7, ln))
+    return spans
+
+
 def parts(hexatom):
     """x<hex> -> (f x.. x.. ...) with atoms of at most 256 bytes"""
     h = hexatom[1:]
@@ -130,27 +186,98 @@ def soft_script(rng, total):
     return out
 
 
-def hard_resp(rng):
+def hard_resp(rng, sticky=0.0):
+    """a hard answer: given ONCE (the sink is healthy again afterwards, so a swallowed error shows up as a hole and an Ok), or,
+    with probability `sticky`, at every later call as well (a writer that retries it never comes back)"""
     r = rng.random()
-    if r < 0.6:
-        return r_fail(rng.choice(KINDS))
-    if r < 0.85:
-        return 'z'
-    return r_accept(0)
+    h = r_fail(rng.choice(KINDS)) if r < 0.6 else ('z' if r < 0.85 else r_accept(0))
+    return L('st', h) if rng.random() < sticky else h
 
 
 def any_script(rng, total):
     """soft prefix of random quota, a hard answer, then arbitrary answers (the sink 'recovers')"""
     s = soft_script(rng, total)
     cutn = rng.randint(0, len(s))
-    s = s[:cutn] + [hard_resp(rng)]
+    s = s[:cutn] + [hard_resp(rng, 0.2)]
     for _ in range(rng.choice([0, 0, 1, 3, 6])):
         s.append(rng.choice([r_accept(rng.randint(1, 50)), 'i', 'z', r_fail(rng.choice(KINDS)), r_accept(1)]))
     return s
 
 
-def chunks(rng):
-    return L('chunks', *[str(k) for k in rng.choice([[1], [2, 3], [0, 5, 1], [100000], [7, 0, 0, 2], [1, 1, 64],
+def big_soft_script(rng, total, entries=0):
+    """soft answers for big outputs: accepts of about a thousand bytes and more (the model's qwrite_all measures the rest of
+    the buffer once per answer), quota above total; `entries`: at least so many answers (a call-driven sink uses one per call)"""
+    pat = rng.choice([[4096], [8192], [65536], [65537], [1, 4095], [3000, 1, 1, 5000], [total + 9],
+                      [rng.randint(1000, 70000) for _ in range(3)], [rng.randint(500, 3000), rng.randint(1, 9)]])
+    p_int = rng.choice([0, 0.05, 0.3])
+    out = []
+    q = 0
+    i = 0
+    while q <= total + 8 or len(out) < entries:
+        if rng.random() < p_int:
+            out.append(rng.choice(['i', L('rep', str(rng.randint(2, 40)), 'i')]))
+        k = pat[i % len(pat)]
+        i += 1
+        out.append(r_accept(k))
+        q += k
+    return out
+
+
+def big_chunks(rng, quick):
+    """how the model cuts a big output into write_all calls (its recursion depth is the longest call and the number of calls;
+    its running time grows with the number of answers used per call)"""
+    return L('chunks', *[str(k) for k in rng.choice([[4096], [8192, 1], [5000, 0, 3000], [1024]] + ([] if quick else [[65536], [70000, 2000]]))])
+
+
+def big_tails(rng):
+    """what the sink answers once the writer reaches the chosen offset: (tail, sticky-or-hard?) lists of answers"""
+    k = lambda: rng.choice(KINDS)
+    rp = lambda n: L('rep', str(n), 'i')
+    return [
+        ['z'],                                                                  # ONE zero-length write, healthy afterwards
+        [L('st', 'z')],                                                         # zero-length writes for ever
+        [r_fail(k())],                                                          # one hard error, healthy afterwards
+        [L('st', r_fail(k()))],                                                 # hard errors for ever
+        [rp(rng.choice([1, 7, 300, 4000]))],                                    # an Interrupted burst: retried, Ok
+        [rp(rng.randint(1, 50)), rng.choice(['z', L('st', 'z'), r_accept(0), L('st', r_accept(0))])],   # burst, then Ok(0)
+        [r_accept(1), r_accept(1), 'i', r_accept(3), rng.choice([r_fail(k()), L('st', r_fail(k()))])],  # short writes, hard error
+        [r_accept(1), rp(3), r_accept(2), r_accept(4096), r_accept(1), r_accept(70000), 'i'],          # short writes only: Ok
+    ]
+
+
+def big_positions(rng, spans, total, quick):
+    """(core, rest): offsets of the complete output at which the sink's answers change -- inside the payloads of more than
+    64 KiB: first byte, middle, last byte, the bytes around them, the multiples of 4096 / 8192 / 65536 counted from the start of
+    the payload and from the start of the output, random ones"""
+    core, rest = set(), set()
+    for s0, ln in spans:
+        core |= {s0, s0 + ln // 2, s0 + ln - 1, s0 + 65536, s0 + 65535}
+        rest |= {s0 - 1, s0 + 1, s0 + ln - 2, s0 + ln, s0 + ln + 1, s0 + 65537}
+        for B in (4096, 8192, 65536):
+            rel = list(range(1, (ln - 1) // B + 1))                    # s0 + k*B inside the payload
+            absk = list(range(s0 // B + 1, (s0 + ln - 1) // B + 1))    # k*B inside the payload
+            if B != 65536:
+                few = 2 if quick else 8
+                rel = rel[:1] + rel[-1:] + rng.sample(rel, min(few, len(rel)))
+                absk = absk[:1] + absk[-1:] + rng.sample(absk, min(few, len(absk)))
+            for k in rel:
+                rest |= {s0 + k * B - 1, s0 + k * B, s0 + k * B + 1}
+            for k in absk:
+                rest |= {k * B - 1, k * B}
+            if absk:
+                core.add(absk[0] * B)
+        for _ in range(3 if quick else 30):
+            rest.add(s0 + rng.randrange(ln))
+    core = sorted(p for p in core if 0 <= p <= total)
+    rest = sorted(p for p in rest if 0 <= p <= total and p not in core)
+    return core, rest
+
+
+def chunks(rng, one_call=100000):
+    """how the model cuts the output into write_all calls.  `one_call`: the size that stands for "everything in one call"; for
+    outputs of tens of KiB a smaller one is used in sweeps, because the model's qwrite_all measures the rest of the call's
+    buffer for every answer of the script (6000 one-byte answers x 30 KiB x 40 positions = minutes)"""
+    return L('chunks', *[str(k) for k in rng.choice([[1], [2, 3], [0, 5, 1], [one_call], [7, 0, 0, 2], [1, 1, 64],
                                                      [rng.randint(0, 40) for _ in range(rng.randint(1, 5))] + [3]])])
 
 
@@ -219,6 +346,11 @@ def gen_cases(rng, tier):
     for size, n in plan:
         for _ in range(n):
             docs.append((size, gen_doc(rng, g, size)))
+    # stream payloads of more than 64 KiB (the first always holds the shortest such payload)
+    for j in range(1 if quick else 10):
+        # (quick tier: two payloads, about 150 KiB together; the model needs some 10 ms per save of that size)
+        lens = [BIG_MIN, rng.randint(BIG_MIN, 100000)] if j == 0 else big_lengths(rng)
+        docs.append(('huge', gen_doc(rng, g, ('huge', lens))))
     # previous revisions for the incremental configurations (one per xref format)
     prevs = ref_pass(exe, [((m, 'plain'), base_doc(), 'x') for m in ('table', 'stream')])
     prev_of = {'table': prevs[0]['full'], 'stream': prevs[1]['full']}
@@ -233,6 +365,8 @@ def gen_cases(rng, tier):
             for k in ('plain', 'inc'):
                 if k == 'inc' and size in ('medium', 'large') and rng.random() < 0.5:
                     continue
+                if k == 'inc' and size == 'huge' and not quick and rng.random() < 0.5:
+                    continue
                 prev = prev_of[m] if k == 'inc' else 'x'
                 if k == 'inc' and rng.random() < 0.3:
                     # bytes before the file header (offsets are then relative to the first %PDF-, /repo bb85a17)
@@ -241,14 +375,44 @@ def gen_cases(rng, tier):
     refs = ref_pass(exe, [((m, k), doc, prev) for _, m, k, doc, prev in items])
     cases = []
     for (size, m, k, doc, prev), ref in zip(items, refs):
+        tag = '%s-%s-%s' % (m, k, size)
         if ref is None:
+            # no reference output: the save to a sink that takes everything failed, panicked or did not return
+            cases.append((L('case', L('cfg', m, k, '0', L('d'), L('ids'), '-'), doc[0], prev, 'x', '0', L('chunks', '1'), L('perfect'), doc[1]),
+                          {'kind': tag + '-perfect-sink', 'nontrivial': True}))
             continue
         total = (len(ref['full']) - 1) // 2
         cfg = L('cfg', m, k, ref['max_id'], ref['trailer'], ref['ids'], ref['top'])
         full_parts = parts(ref['full'])
         def case(job, ch=None):
             return L('case', cfg, doc[0], prev, full_parts, ref['cut'], ch or chunks(rng), job, doc[1])
-        tag = '%s-%s-%s' % (m, k, size)
+        if size == 'huge':
+            spans = payload_spans(ref['full'], doc[1])
+            # soft sinks (short writes and Interrupted bursts inside the payloads): Ok and every byte
+            cases.append((case(L('onelen', 'call', L('script', *big_soft_script(rng, total, 600))), big_chunks(rng, quick)),
+                          {'kind': tag + '-soft-call', 'nontrivial': True}))
+            cases.append((case(L('onelen', 'pos', L('script', *big_soft_script(rng, total))), big_chunks(rng, quick)),
+                          {'kind': tag + '-soft-pos', 'nontrivial': True}))
+            # Ok(0), hard errors (once / for ever), Interrupted bursts, short writes at offsets inside the payloads
+            core, rest = big_positions(rng, spans, total, quick)
+            tails = big_tails(rng)
+            T = lambda ts: L('tails', *[L('t', *t) for t in ts])
+            at = lambda ps: L('at', *[str(p) for p in ps])
+            for half in (tails[:4], tails[4:]):
+                cases.append((case(L('sweepat', L('script', *big_soft_script(rng, total)), T(half), at(core)), big_chunks(rng, quick)),
+                              {'kind': tag + '-payload-core', 'nontrivial': True}))
+            n = 2 if quick else 4
+            for i in range(n):
+                some = [tails[1], rng.choice([tails[0], tails[5], tails[2], tails[3], tails[6]])] if quick else \
+                       [tails[1], rng.choice([tails[0], tails[5]]), rng.choice([tails[2], tails[3], tails[6]])]
+                cases.append((case(L('sweepat', L('script', *big_soft_script(rng, total)), T(some), at(rest[i::n])), big_chunks(rng, quick)),
+                              {'kind': tag + '-payload-offsets', 'nontrivial': True}))
+            if dev['limit'] and ref['sizes'] != '(sizes)':
+                ps = path_positions(rng, total, int(ref['cut']), quick)
+                ps = sorted(set(ps[::(5 if quick else 2)]) | {s0 + d for s0, ln in spans for d in (0, ln - 1, 65536)})
+                cases.append((case(L('psweep', ref['sizes'], L('at', *[str(p) for p in ps])), L('chunks', '1')),
+                              {'kind': tag + '-path-limit-sweep', 'nontrivial': True}))
+            continue
         # (1) soft sinks, call-driven: Ok and every byte, whatever the short-write pattern
         for _ in range(2 if quick else 4):
             cases.append((case(L('one', 'call', L('script', *soft_script(rng, total)))), {'kind': tag + '-soft-call', 'nontrivial': True}))
@@ -259,13 +423,15 @@ def gen_cases(rng, tier):
         # (3) failure at every offset (small outputs) / sampled offsets (larger ones)
         nsweeps = 1 if quick else 3
         for _ in range(nsweeps):
-            if size in ('medium', 'large') or (k == 'inc' and quick):
+            if size in ('medium', 'large'):
                 step = max(1, total // (40 if quick else 400))
                 lo = rng.randrange(step)
             else:
+                # short outputs: one failure at EVERY offset (incremental saves: of the previous revision's bytes as well)
                 step, lo = 1, 0
-            job = L('sweep', L('script', *soft_script(rng, total)), hard_resp(rng), str(lo), str(total), str(step))
-            cases.append((case(job), {'kind': tag + ('-sweep-all' if step == 1 else '-sweep-sampled'), 'nontrivial': True}))
+            job = L('sweep', L('script', *soft_script(rng, total)), hard_resp(rng, 0.25), str(lo), str(total), str(step))
+            cases.append((case(job, chunks(rng, 100000 if step == 1 else 512)),
+                          {'kind': tag + ('-sweep-all' if step == 1 else '-sweep-sampled'), 'nontrivial': True}))
         # (4) Document::save(path) / IncrementalDocument::save(path) on real files whose device fails
         sizes = ref['sizes']
         if sizes == '(sizes)':
